@@ -1,7 +1,12 @@
 pub mod c01;
 pub mod c02;
+pub mod c03;
+pub mod c04;
 pub mod c09;
+pub mod c10;
 pub mod c14;
+pub mod c16;
+pub mod c18;
 
 use crate::util::RunCtx;
 
@@ -9,8 +14,13 @@ pub fn run(ctx: &RunCtx) -> i32 {
     match ctx.property.as_str() {
         "C01" => c01::run(ctx),
         "C02" => c02::run(ctx),
+        "C03" => c03::run(ctx),
+        "C04" => c04::run(ctx),
         "C09" => c09::run(ctx),
+        "C10" => c10::run(ctx),
         "C14" => c14::run(ctx),
+        "C16" => c16::run(ctx),
+        "C18" => c18::run(ctx),
         other => {
             println!("MACHINERY-ERROR unknown property {}", other);
             2
